@@ -93,6 +93,14 @@ Theorem C13_nonfinite_raises : forall c b k, b < nb c -> forall rh i,
 Proof. exact nonfinite_raises. Qed.
 Print Assumptions C13_nonfinite_raises.
 
+(* a computed matrix that is finite in the factor dtype but not in the dtype it is stored in (float32 root 1e6,
+   float16 parameter) counts as non-finite: the step raises, and by C13_stored_matrix_change nothing is stored *)
+Theorem C13_storage_overflow_raises : forall c b k, b < nb c -> forall rh i,
+  refresh_step c rh i = true -> present (i b) = true -> k < nf c b ->
+  rout (fin (i b) k) = SuccessOverflowsStorage -> out_r c rh i <> Ok.
+Proof. exact storage_overflow_raises. Qed.
+Print Assumptions C13_storage_overflow_raises.
+
 Theorem C13_pve_iff : forall c b k, b < nb c -> forall rh i,
   out_r c rh i = RaisePVE b k <->
   refresh_step c rh i = true /\ present (i b) = true /\ reached b (out_r c rh i) = true /\
